@@ -204,6 +204,17 @@ class ArrayAttr(
     def __init__(self, param: Iterable[AttributeCovT]) -> None:
         super().__init__(tuple(param))
 
+    @classmethod
+    @override
+    def get(cls, attr: Iterable[AttributeCovT] | Self) -> Self:
+        """
+        Like `Data.get`, but accepts any iterable of attributes, as `__init__` does:
+        the elements are always stored as a tuple (an immutable, hashable value).
+        """
+        if isinstance(attr, cls):
+            return attr
+        return cls.new(tuple(attr))
+
     def print_builtin(self, printer: Printer):
         with printer.in_square_brackets():
             printer.print_list(self.data, printer.print_attribute)
